@@ -143,7 +143,15 @@ extern _Bool g_cur_is_w; extern void *g_cur_addr;
 #define ITEM_ARG(item) (g_kind_was == 1 ? ((ItemV *)(item))->arguments.a0.id : ((ItemW *)(item))->arguments.a0.id)
 extern int g_kind_was;              /* the prototype the witness event was enqueued for (1 / 2), kept after the slot is cleared */
 #define DISP_OF(k) ((k) == 1 ? FN_PTR(HQ_doDispatchItem__V) : FN_PTR(HQ_doDispatchItem__W))
-#define ITEM_INTACT(item) (((ItemBase *)(item))->callableIndex == g_kind_was - 1 && ((ItemBase *)(item))->event == g_event && ((ItemBase *)(item))->dispatcher == DISP_OF(g_kind_was) && ITEM_ARG(item) == g_argid)
+#ifdef UNIT_HQUEUEI
+/* enqueue(T &&) with an rvalue instantiates doDispatchItem for FindPrototypeByArgs<List, VArg> instead of <List, VArg &>:
+ * another function with the same prototype index and the same text (the extractor numbers it ...__V_2 / ...__W_2) */
+void HQ_doDispatchItem__V_2(HQ *, ItemBase *); void HQ_doDispatchItem__W_2(HQ *, ItemBase *);
+#define DISP_MATCH(d, k) ((d) == DISP_OF(k) || (d) == ((k) == 1 ? FN_PTR(HQ_doDispatchItem__V_2) : FN_PTR(HQ_doDispatchItem__W_2)))
+#else
+#define DISP_MATCH(d, k) ((d) == DISP_OF(k))
+#endif
+#define ITEM_INTACT(item) (((ItemBase *)(item))->callableIndex == g_kind_was - 1 && ((ItemBase *)(item))->event == g_event && DISP_MATCH(((ItemBase *)(item))->dispatcher, g_kind_was) && ITEM_ARG(item) == g_argid)
 #define GHOSTS g_S0, g_anon, g_kind, g_kind_was, g_argid, g_event, g_disp, g_pred, g_born, g_dead, g_seq, g_rm_list, g_rm_idx, g_ins_list, g_ins_idx
 #define SLOT_QUEUED_M (g_born && !g_dead && g_disp == 0 && (g_kind == 1 || g_kind == 2) && g_kind_was == g_kind && g_S0.dtor == (g_kind == 1 ? TAGV : TAGW) && ITEM_INTACT(&g_S0.buffer))
 #undef FN_ENTRY_Slot_set__ItemV
@@ -339,5 +347,29 @@ static inline void hq_unlock_hook(Mutex *m)
   __CPROVER_requires(NOLOCKS(self) && hq_ok(self) && HQ_SMALL(self) && !g_cur_is_w) \
   __CPROVER_assigns(ENQ_FRAME) \
   ENQ_POST(2)
+
+#ifdef UNIT_HQUEUEI
+/* ------------------------------------------------------------------ the include-event form (unit hqueuei): the event is what the
+ * getEvent policy yields from the FIRST ARGUMENT AS THE CALLER PASSED IT, and the stored argument is that same value -
+ * for an lvalue (copied, the caller's object keeps its value) and for an rvalue / temporary (moved), in EVERY evaluation
+ * order the language allows for the arguments of the item's constructor call (C04 / C14 "with intact arguments", C20 "no
+ * result depends on unspecified evaluation order").  The user policy reads through a const reference. */
+#undef CONTRACT_Pol_getEvent
+#define CONTRACT_Pol_getEvent __CPROVER_assigns() __CPROVER_ensures(__CPROVER_return_value == (a0->id ^ 0x2a))
+#define CONTRACT_Pol_getEvent__WArg __CPROVER_assigns() __CPROVER_ensures(__CPROVER_return_value == (a0->id ^ 0x2a))
+#define ENQI_POST(KIND) \
+  __CPROVER_ensures(NOLOCKS(self) && hq_ok(self) && self->queueList.len == __CPROVER_old(self->queueList.len) + 1) \
+  __CPROVER_ensures(__CPROVER_old(self->queueList.w) >= 0 ==> self->queueList.w == __CPROVER_old(self->queueList.w)) \
+  __CPROVER_ensures(self->queueList.w == __CPROVER_old(self->queueList.len) ==> (g_kind == (KIND) && g_kind_was == (KIND) && g_argid == __CPROVER_old(first->id) && g_event == (__CPROVER_old(first->id) ^ 0x2a) && SLOT_QUEUED_M))
+#define ENQI_PRE(T) \
+  __CPROVER_requires(HQ_FRESH(self) && __CPROVER_is_fresh(first, sizeof(T))) \
+  __CPROVER_requires(NOLOCKS(self) && hq_ok(self) && HQ_SMALL(self) && !g_cur_is_w) \
+  __CPROVER_assigns(ENQ_FRAME, first->id)
+#define ENQI_LVALUE __CPROVER_ensures(first->id == __CPROVER_old(first->id))        /* an lvalue argument of the caller is copied, not moved from */
+#define CONTRACT_HQ_doEnqueueI__V  ENQI_PRE(VArg) ENQI_POST(1) ENQI_LVALUE
+#define CONTRACT_HQ_doEnqueueI__V_2 ENQI_PRE(VArg) ENQI_POST(1)
+#define CONTRACT_HQ_doEnqueueI__W  ENQI_PRE(WArg) ENQI_POST(2) ENQI_LVALUE
+#define CONTRACT_HQ_doEnqueueI__W_2 ENQI_PRE(WArg) ENQI_POST(2)
+#endif
 
 #include "exc.h"
